@@ -71,3 +71,17 @@ package zenodb
 //@   loop 0 invariant fed: forall k :: old(has(remainingIterations, k)) ==> callsOn(old(remainingIterations[k]), "onValue") == old(callsOn(remainingIterations[k], "onValue")) + (visited(k) ? 1 : 0)
 //@   loop 0 invariant stopped: forall k :: visited(k) && !lastretOn(old(remainingIterations[k]), "onValue", 0) ==> !has(remainingIterations, k)
 //@   loop 0 invariant running: forall k :: visited(k) && lastretOn(old(remainingIterations[k]), "onValue", 0) ==> has(remainingIterations, k)
+
+// C14: a truncating flush (disallowRaw) must not let stored rows bypass doWrite's truncation: raw pass-through is
+// permitted (rawOkay argument of fileStore.iterate) only when the flush does not disallow it.
+//@ func (*fileStore).flush$2
+//@   modifies *
+//@   at call (*zenodb.fileStore).iterate assert truncating_flush_not_raw: disallowRaw ==> !callarg4
+
+// C14: every tenth flush is a truncating one (flush count 9, 19, 29, ... before the increment), so an expired period is
+// gone after at most ten data-carrying flushes; the counter advances by exactly one per flush attempt.
+//@ func (*rowStore).doProcessFlush
+//@   requires rs != nil && ms != nil
+//@   modifies *
+//@   callback Panic noreturn
+//@   at call (*zenodb.fileStore).flush assert every_tenth: callarg7 == ((rs.flushCount - 1) % 10 == 9)
